@@ -8,6 +8,8 @@ import (
 	"fmt"
 	"go/token"
 	"go/types"
+	"os"
+	"runtime/debug"
 	"strconv"
 	"strings"
 	"unicode/utf8"
@@ -963,9 +965,14 @@ func (i *interpreter) quoteByte(b value, quote byte) []value {
 	if i.decide(tt.And(tt.Bin(OpUle, c8(0x20), t), tt.Bin(OpUle, t, c8(0x7e)))) {
 		return []value{b}
 	}
+	if os.Getenv("VERIF_DEBUG_UNSUPPORTED") != "" {
+		for _, f := range i.curFn {
+			fmt.Fprintln(os.Stderr, "  in", f.Name())
+		}
+		fmt.Fprintf(os.Stderr, "%s\n", debug.Stack())
+	}
 	panic(unsupported{"quoting a symbolic control or non-ASCII byte (length depends on the value)"})
 }
-
 
 // siteName: the function the interpreter is executing (for attributing memory accesses).
 func (i *interpreter) siteName() string {
